@@ -33,16 +33,19 @@ from py4hw.logic.protocol.uart.clock import ClockSyncFSM
 PROP = 'C10'
 
 
-def build_design(s, shape, gated, enw=1, en_src='input'):
+def build_design(s, shape, gated, enw=1, en_src='input', late=False):
     """returns {'ins':..., 'domains': {driver name: [leaf paths]}, 'en': {driver name: wire}}"""
     w = 3
     a = s.wire('a', w)
     ins = {'a': a}
     en = {}
-    info = {'ins': ins, 'en': en, 'gated_boxes': []}
+    info = {'ins': ins, 'en': en, 'gated_boxes': [], 'pending': []}
 
     def gate(box, name, enable_wire):
-        if gated:
+        if gated and late:
+            # the driver is assigned only after a first simulator has been obtained (see run)
+            info['pending'].append((box, name, enable_wire))
+        elif gated:
             box.clockDriver = ClockDriver(name, base=s.clockDriver, enable=enable_wire)
         en[name] = enable_wire
         info['gated_boxes'].append((name, box))
@@ -189,10 +192,14 @@ def domain_of(leaf, info):
     return best
 
 
-def run(shape, gated, enw, en_src, values=None, rec=None, n=1, single=True):
+def run(shape, gated, enw, en_src, values=None, rec=None, n=1, single=True, late=False):
     with quiet():
         s = py4hw.HWSystem()
-        info = build_design(s, shape, gated, enw, en_src)
+        info = build_design(s, shape, gated, enw, en_src, late=late)
+        if info['pending']:
+            s.getSimulator().clk(1)                     # the design is simulated ungated first
+            for box, name, enable_wire in info['pending']:
+                box.clockDriver = ClockDriver(name, base=s.clockDriver, enable=enable_wire)
         if values is None:
             symsim.instrument(s, rec)
         sim = s.getSimulator()
@@ -221,7 +228,8 @@ def run(shape, gated, enw, en_src, values=None, rec=None, n=1, single=True):
 
 def gate_task(p, cfg, rec):
     shape, enw, en_src = cfg['shape'], cfg['enw'], cfg['en_src']
-    s, info, pre, post, en_pre, vars_, sim = run(shape, True, enw, en_src, rec=rec)
+    late = cfg.get('late', False)
+    s, info, pre, post, en_pre, vars_, sim = run(shape, True, enw, en_src, rec=rec, late=late)
     s2, info2, pre2, post2, en_pre2, vars2, sim2 = run(shape, False, enw, en_src, rec=rec)
     p.res['states'] += 1
     p.res['transitions'] += 2
@@ -263,7 +271,7 @@ def gate_task(p, cfg, rec):
                 c = z3.BoolVal(True)
 
             def replay(values, k=k, dn=dn):
-                a = run(shape, True, enw, en_src, values=values)
+                a = run(shape, True, enw, en_src, values=values, late=late)
                 b = run(shape, False, enw, en_src, values=values)
                 pre_c, post_c, en_c, post_t = a[2], a[3], a[4], b[3]
                 if dn is None:
@@ -338,6 +346,9 @@ def cfgs(tier):
     out.append(('block enable=combinational function of a register of the gated domain', {'shape': 'block', 'enw': 1, 'en_src': 'comb'}))
     out.append(('block enable=combinational function of a base-domain register', {'shape': 'block', 'enw': 1, 'en_src': 'combbase'}))
     out.append(('fsm enable=2-bit combinational function of a register of the gated domain', {'shape': 'fsm', 'enw': 2, 'en_src': 'comb'}))
+    for shape in ('block', 'ancestor', 'nested') if quick else ('block', 'fsm', 'ancestor', 'nested', 'three'):
+        out.append(('%s enable=input, drivers assigned after a first simulator was obtained and clocked' % shape,
+                    {'shape': shape, 'enw': 1, 'en_src': 'input', 'late': True}))
     for k in range(4 if quick else 40):
         out.append(('random design #%d in a gated box, enable=%d-bit input' % (k, 1 + k % 2), {'shape': 'random#%d' % k, 'enw': 1 + k % 2, 'en_src': 'input'}))
     if not quick:
